@@ -51,6 +51,15 @@ func main() {
 		debugLoops(loadWorld(*repo))
 		return
 	}
+	if *dumpfn == "MAPCARRIED" {
+		w := loadWorld(*repo)
+		for _, fn := range w.RepoFuncs("compose", "schema", "internal", "flow", "callbacks", "components", "utils") {
+			for _, c := range mapRangeCarried(fn) {
+				fmt.Printf("%s | %s | %s %s : %s | %s\n", w.fname(fn), c.loop.what, c.phi.Name(), c.phi.Comment, c.phi.Type(), carriedKind(c))
+			}
+		}
+		return
+	}
 	if *dumpfn == "LIST" {
 		w := loadWorld(*repo)
 		for _, f := range w.RepoFuncs() {
